@@ -12,6 +12,7 @@ EXPLANATION = ("Props/C11.v: the fragment-size search ends for every probe oracl
                "anything else must be a reported failure within the exchange budget.")
 TRUSTED = ["the handshake's other stages (query-type detection, EDNS0, lazy mode, option switching) are exercised through the real code only",
            "real resolvers and timing are not modelled; a dropped message is an immediate time-out in the run"]
+SHARDS = 4      # harness processes side by side (cases are independent, all in memory)
 RUN_TIMEOUT = 3000
 
 
@@ -24,6 +25,11 @@ def mk(cp, bp, types, limit, seed, src):
 def cases(tier, rng):
     thorough = tier == "thorough"
     cs = [mk("keep", "keep", "all", 0, 1, "transparent")]
+    # transfers of every length up to one upstream fragment after the handshake (seed >= 1000 asks the harness for the sweep):
+    # a transparent path, one that lower-cases names (Base32 upstream), one that strips the 8th bit, a CNAME-only and an MX-only path
+    for cp, bp, ty in ([("keep", "keep", "all"), ("lower", "keep", "all"), ("keep", "strip", "all"), ("keep", "keep", "CNAME"), ("keep", "keep", "MX")]
+                       if thorough else [("keep", "keep", "all"), ("lower", "keep", "all"), ("keep", "keep", "CNAME")]):
+        cs.append(mk(cp, bp, ty, 0, 1000 + rng.below(100), "length-sweep"))
     for cp in ("keep", "lower", "upper", "alt"):
         for bp in ("keep", "strip", "drop"):
             cs.append(mk(cp, bp, "all", 0, rng.below(100), "name-policy"))
